@@ -48,12 +48,20 @@ def plan(tier, seed):
 def floors(tier):
     return {"distinct_nontrivial": 200, "unwind.close": 200, "unwind.exc": 50, "op:full": 500, "op:take": 100,
             "op:abandon": 100, "op:drop": 100, "op:boom_raised": 50, "op:the": 50, "cls:dup_domain": 50,
-            "cls:caching_off": 100, "cache.check.hit": 500}
+            "cls:caching_off": 100, "cache.check.hit": 500, "cls:ruletree_history": 100}
 
 
 def cases(spec, ctx):
+    from . import c12
     for i in range(spec["n"]):
         rng = ctx.rng(spec["sub"], i)
+        if rng.random() < 0.2:
+            ops = []
+            for _ in range(rng.randint(2, 6)):
+                kind = rng.choice(["full", "full", "take", "abandon", "drop"])
+                ops.append([kind, 0] if kind == "full" else [kind, 0, rng.randint(1, 3)])
+            yield {"ruletree": c12.gen_case(rng), "ops": ops, "caching": rng.random() < 0.65}
+            continue
         nv = rng.choice([2, 2, 3])
         kinds = [rng.choice("PQ") for _ in range(nv)]
         world = D.random_world(rng, np_=(2, 4), nq=(2, 4))
@@ -207,7 +215,74 @@ def run_history(case, world, caching):
     return log, failures, exp
 
 
+def run_ruletree_history(case, caching):
+    from . import c12
+    from entity_query_language.cache_data import enable_caching, disable_caching
+    rt = case["ruletree"]
+    objs = c12._objs(rt)
+    exp = c12.expected(rt, objs)
+    idx = {id(o): i for i, o in enumerate(objs)}
+    (enable_caching if caching else disable_caching)()
+    log, failures, keep = [], [], []
+    try:
+        q = c12.build(rt, objs)
+        for step, op in enumerate(list(case["ops"]) + [["full", 0]]):
+            if op[0] == "full":
+                got = [c12.encode(o, idx) for o in q.evaluate()]
+                log.append(["full", 0, len(got)])
+                if Counter(got) != Counter(exp):
+                    miss = list((Counter(exp) - Counter(got)).elements())
+                    extra = list((Counter(got) - Counter(exp)).elements())
+                    failures.append({"step": step, "what": "full", "kind": "CONCLUSIONS:" + ("missing" if miss else "") + ("+extra" if extra else ""),
+                                     "missing": miss[:6], "extra": extra[:6], "n_expected": len(exp), "n_observed": len(got)})
+            else:
+                it = q.evaluate()
+                taken = []
+                for _ in range(op[2]):
+                    try:
+                        taken.append(c12.encode(next(it), idx))
+                    except StopIteration:
+                        break
+                log.append([op[0], 0, len(taken)])
+                if Counter(taken) - Counter(exp):
+                    failures.append({"step": step, "what": op[0], "kind": "PARTIAL_ROW_NOT_A_SOLUTION", "rows": taken[:4]})
+                if op[0] == "take":
+                    it.close()
+                elif op[0] == "abandon":
+                    keep.append(it)
+                else:
+                    del it
+                    gc.collect()
+    finally:
+        enable_caching()
+        keep.clear()
+    return log, failures, exp
+
+
+def check_ruletree_case(case, ctx):
+    ctx.cls("cls:ruletree_history")
+    ctx.cls("cls:caching_on" if case["caching"] else "cls:caching_off")
+    try:
+        log, failures, exp = run_ruletree_history(case, case["caching"])
+    except Exception as e:
+        import traceback
+        ctx.fail("EXC", f"{type(e).__name__}: {e}\n{traceback.format_exc()[-1200:]}")
+        return
+    interrupted = False
+    for entry in log:
+        ctx.cls("op:" + entry[0])
+        if entry[0] != "full":
+            interrupted = True
+    if interrupted and len({t for t, _ in exp}) >= 2:
+        ctx.nontrivial()
+    for f in failures:
+        ctx.fail(f["kind"], {"history_log": log, **f})
+    ctx.sample({"ruletree": case["ruletree"], "ops": case["ops"], "history_log": log})
+
+
 def check_case(case, ctx):
+    if "ruletree" in case:
+        return check_ruletree_case(case, ctx)
     world = D.build_world(case["world"])
     ctx.cls("cls:caching_on" if case["caching"] else "cls:caching_off")
     if case.get("dup"):
@@ -243,20 +318,22 @@ def check_case(case, ctx):
 def classify(f, ctx):
     """K05 / K02 inside a history: the whole history is re-run under the counterfactual configuration."""
     case = f["case"]
-    if f["kind"] != "SET:missing":
+    if f["kind"] != "SET:missing" or "ruletree" in case:
         return None
     from ..shard import reset_eql_state
 
-    def rerun(caching, dedup_off=False):
+    def rerun(caching, dedup_off=False, spec_retrieve=False):
         reset_eql_state()
         M.begin_case()
         M.FORCE_DEDUP_OFF = dedup_off
+        M.FORCE_SPEC_RETRIEVE = spec_retrieve
         try:
             world = D.build_world(case["world"])
             log, failures, _ = run_history(case, world, caching)
             return failures, Counter(M.RETRIEVE_EVENTS)
         finally:
             M.FORCE_DEDUP_OFF = False
+            M.FORCE_SPEC_RETRIEVE = False
 
     try:
         fails_as_is, ev = rerun(case["caching"])
@@ -266,7 +343,9 @@ def classify(f, ctx):
         if not fails_off:
             if case["caching"] and all(x["kind"] == "SET:missing" for x in fails_as_is) and ev["known_deviation"] >= 1 \
                     and ev["other_deviation"] == 0:
-                return "K05"
+                fails_spec, _ = rerun(True, spec_retrieve=True)
+                if not [x for x in fails_spec if "missing" in x["kind"] or x["kind"] == "PARTIAL_ROW_NOT_A_SOLUTION"]:
+                    return "K05"
             return None
         mns = any(multi.vars_mentioned_not_selected({"cond": p["cond"], "sel": p["sel"]}) for p in case["pool"])
         if mns and all(x["kind"] == "SET:missing" for x in fails_off):
